@@ -187,6 +187,58 @@ static void join_unit_ex(int id, int by, int free_only)
     VSA_CHECK(u->th == ABT_THREAD_NULL, "ABT_thread_free did not reset the handle of U%d", id);
 }
 
+/* ABT_thread_join_many / ABT_thread_free_many over several children at once (the caller is a ULT): the calls behave like
+ * the single joins / frees one after the other, whatever happens to the caller in between (it may block in one join and
+ * continue the next one from another execution stream) */
+static void join_many_units(const int *ids, int n)
+{
+    ABT_thread hs[8];
+    char nm[8][64];
+    int free_many = sc_rnd(2);
+    for (int i = 0; i < n; i++) {
+        unit *u = &U[ids[i]];
+        hs[i] = u->th;
+        vs_addr_name(ABTI_thread_get_ptr(u->th), nm[i], sizeof nm[i]);
+        for (int k = 0; k < u->nsteps; k++)
+            if (u->steps[k] == OP_SUSPEND)
+                free_many = 0; /* (the resumer polls the handle of a unit that suspends: it is freed after the join) */
+    }
+    for (int i = 0; i < n; i++)
+        vs_log("apiCall join U%d %s ult", ids[i], nm[i]);
+    if (free_many)
+        ABT_OK(ABT_thread_free_many(n, hs));
+    else
+        ABT_OK(ABT_thread_join_many(n, hs));
+    for (int i = 0; i < n; i++) {
+        unit *u = &U[ids[i]];
+        vs_note("apiRet join U%d %s", ids[i], nm[i]);
+        if (!free_many) {
+            ABT_thread_state st;
+            ABT_OK(ABT_thread_get_state(u->th, &st));
+            VSA_CHECK(st == ABT_THREAD_STATE_TERMINATED, "join_many returned but the state of U%d is %d", ids[i], (int)st);
+        } else {
+            VSA_CHECK(hs[i] == ABT_THREAD_NULL, "ABT_thread_free_many did not reset the handle of U%d", ids[i]);
+        }
+        VSA_CHECK(u->cancel_me ? u->started <= 1 : (u->started == 1 && (u->finished == 1 || u->exited == 1)),
+                  "%s of U%d returned: started=%d finished=%d exited=%d", free_many ? "free_many" : "join_many", ids[i], u->started,
+                  u->finished, u->exited);
+        u->joined = 1;
+        if (!u->counted_out) {
+            u->counted_out = 1;
+            __sync_fetch_and_sub(&live_workers, 1);
+        }
+    }
+    for (int i = 0; i < n; i++) {
+        unit *u = &U[ids[i]];
+        if (free_many) {
+            u->th = ABT_THREAD_NULL;
+        } else {
+            ABT_OK(ABT_thread_free(&u->th));
+            VSA_CHECK(u->th == ABT_THREAD_NULL, "ABT_thread_free did not reset the handle of U%d", ids[i]);
+        }
+    }
+}
+
 /* a joined (terminated, still named) unit gets a second life with a new script, possibly in another pool */
 static int revive_unit(int old)
 {
@@ -615,8 +667,11 @@ static void unit_fn(void *arg)
     }
     if (cancel_at == u->nsteps && nch > 0)
         self_cancel(u, self);
-    for (int k = 0; k < nch; k++)
-        join_unit(children[k], u->id);
+    if (nch >= 2 && u->kind == AK_ULT && sc_rnd(3) == 0)
+        join_many_units(children, nch);
+    else
+        for (int k = 0; k < nch; k++)
+            join_unit(children[k], u->id);
     u->finished++;
     vs_note("userEnd U%d", u->id);
     u->counted_out = 1;
